@@ -50,9 +50,12 @@ def judge_instance(ctx, inst, case):
     sent = 0
     consumed = 0
     granted = 0
+    received = 0
     reported = set()
     for e in inst.ev:
         t, d = e["t"], e["d"]
+        if d == "in" and t in (cm.DATA, cm.EXT):
+            received += e["len"]
         if d == "in" and t == cm.ADJUST:
             credit += e["adj"]
             ctx.count("adjusts_read")
@@ -90,6 +93,13 @@ def judge_instance(ctx, inst, case):
         elif d == "out" and t == cm.ADJUST:
             granted += e["adj"]
             ctx.count("adjusts_sent")
+            if granted > received and "r" not in reported:
+                reported.add("r")
+                ctx.violation(
+                    "receiver granted more window than the peer had sent",
+                    "the sum of WINDOW_ADJUST values sent exceeded all data bytes received on the channel so far "
+                    "(some bytes were credited more than once)",
+                    dict(case=case, chan=inst.desc(), granted=granted, received=received, excerpt=inst.excerpt()))
             if granted > consumed and "g" not in reported:
                 reported.add("g")
                 ctx.violation(
@@ -408,6 +418,183 @@ def run_attack_case(ctx, case, rng):
 
 
 # ---------------------------------------------------------------------------
+# extended data of non-stderr type codes mixed with stderr and normal data
+EXT_CODES = (0, 1, 2, 7, 0xFFFFFFFF)
+_T1 = bytes(0x80 | (i & 0x3F) for i in range(256))  # type-1 payload alphabet 0x80-0xBF
+_TX = bytes(0xC0 | (i & 0x3F) for i in range(256))  # other type codes: 0xC0-0xFF
+_T1_ONLY = bytes(range(0x80, 0xC0))
+_TX_ONLY = bytes(range(0xC0, 0x100))
+
+
+def gen_exttypes(rng, idx):
+    w = (32768, 65536)[idx % 2]
+    thr = w // 10
+    mode = ("stderr_read", "not_read", "combine", "combine_midway")[idx // 2 % 4]
+    sizes = ("below", "above", "mixed")[idx // 8 % 3]
+    plan = []
+    total = 0
+    cap = rng.choice((w // 2, w, 2 * w))
+    while total < cap:
+        kind = rng.choice(("data", "ext1", "ext1", "extx", "extx", "extx"))
+        if sizes == "below" or (sizes == "mixed" and rng.random() < 0.6):
+            n = rng.choice((1, 2, 100, thr // 3, thr - 1, thr))
+        else:
+            n = rng.choice((thr + 1, thr + 100, 2 * thr, 9000))
+        code = None if kind == "data" else 1 if kind == "ext1" else rng.choice((0, 2, 7, 0xFFFFFFFF))
+        plan.append((code, n))
+        total += n
+    return dict(kind="exttypes", window=w, mode=mode, sizes=sizes, plan=plan, role=rng.choice(("client", "server")),
+                maxread=rng.choice((50, 1000, 40000)))
+
+
+def run_exttypes(ctx, case, rng):
+    role = case["role"]
+    a = Attacker(role=role, rng=rng, victim_kw=dict(default_window_size=case["window"], default_max_packet_size=32768))
+    cm.watch(a.victim, a.rec, "v")
+    holder = {}
+    try:
+        if not a.start(auth=True):
+            ctx.inconclusive("attacker handshake failed (exttypes)")
+            return
+        a.takeover()
+        aid = 31337
+        if role == "client":
+            a.send(cm.OPEN, "session", aid, 1 << 20, 32768)
+            r = a.wait_inbox(lambda e: e["type"] == cm.OPEN_OK, 20)
+            if r is None:
+                ctx.inconclusive("no confirmation (exttypes)")
+                return
+            vid = cm.parse(bytes([cm.OPEN_OK]) + r["payload"])["sender"]
+            vchan = a.victim.accept(20)
+        else:
+            th = threading.Thread(target=lambda: holder.__setitem__("chan", a.victim.open_session(
+                window_size=case["window"], max_packet_size=32768, timeout=30)), daemon=True)
+            th.start()
+            r = a.wait_inbox(lambda e: e["type"] == cm.OPEN, 20)
+            if r is None:
+                ctx.inconclusive("no CHANNEL_OPEN (exttypes)")
+                return
+            vid = cm.parse(bytes([cm.OPEN]) + r["payload"])["sender"]
+            a.send(cm.OPEN_OK, vid, aid, 1 << 20, 32768)
+            th.join(30)
+            vchan = holder.get("chan")
+        if vchan is None:
+            ctx.inconclusive("no victim channel (exttypes)")
+            return
+        mode = case["mode"]
+        if mode == "combine":
+            vchan.set_combine_stderr(True)
+        got_out, got_err = bytearray(), bytearray()
+        stop = threading.Event()
+        idle = [0]
+        errs = []
+
+        def reader():
+            rr = __import__("random").Random(rng.getrandbits(32))
+            try:
+                while not stop.is_set():
+                    did = False
+                    if vchan.recv_ready():
+                        got_out.extend(vchan.recv(rr.randint(1, case["maxread"])))
+                        did = True
+                    if mode == "stderr_read" and vchan.recv_stderr_ready():
+                        got_err.extend(vchan.recv_stderr(rr.randint(1, case["maxread"])))
+                        did = True
+                    if not did:
+                        idle[0] += 1
+                        time.sleep(0.0005)
+            except Exception as e:
+                errs.append(repr(e))
+
+        rt = threading.Thread(target=reader, daemon=True)
+        rt.start()
+        want_out, want_err = bytearray(), bytearray()
+        n_x = 0
+        pos = dict(out=0, err=0)
+        src_out = cm.stream_bytes("xt", "out", sum(n for c, n in case["plan"] if c is None))
+        src_err = cm.stream_bytes("xt", "err", sum(n for c, n in case["plan"] if c == 1)).translate(_T1)
+        for k, (code, n) in enumerate(case["plan"]):
+            if mode == "combine_midway" and k == len(case["plan"]) // 2:
+                vchan.set_combine_stderr(True)
+            if code is None:
+                b = src_out[pos["out"]:pos["out"] + n]
+                pos["out"] += n
+                want_out += b
+                a.send(cm.DATA, vid, b)
+            elif code == 1:
+                b = src_err[pos["err"]:pos["err"] + n]
+                pos["err"] += n
+                want_err += b
+                a.send(cm.EXT, vid, 1, b)
+            else:
+                a.send(cm.EXT, vid, code, bytes(n).translate(_TX))
+                n_x += n
+                ctx.count("ext_msgs_non_stderr_type")
+                if n <= case["window"] // 10:
+                    ctx.count("ext_msgs_non_stderr_type_below_threshold")
+        if not a.probe_alive(30):
+            ctx.inconclusive("victim stopped answering (exttypes)")
+            return
+        # reader drained: nothing readable and two idle rounds
+        def drained():
+            return not vchan.recv_ready() and not (mode == "stderr_read" and vchan.recv_stderr_ready())
+        i0 = None
+        ok = False
+        end = time.monotonic() + 60
+        while time.monotonic() < end:
+            if drained() and a.link.quiescent(0.05):
+                if i0 is None:
+                    i0 = idle[0]
+                elif idle[0] >= i0 + 3:
+                    ok = True
+                    break
+            else:
+                i0 = None
+            time.sleep(0.002)
+        stop.set()
+        rt.join(10)
+        if not ok or errs:
+            ctx.inconclusive("reader did not drain (exttypes): %s" % errs)
+            return
+        pair.wait_for(lambda: a.link.quiescent(0.05), 5)
+        judge(ctx, a.rec, ("v",), dict(kind="exttypes", window=case["window"], mode=mode, sizes=case["sizes"], role=role))
+        ctx.count("exttypes_cases")
+        ctx.count("exttypes_discarded_bytes", n_x)
+        desc = dict(case=dict(case, plan=case["plan"][:12]), discarded=n_x)
+        rs = bytes(got_err)
+        ro = bytes(got_out)
+        leak = len(rs.translate(None, bytes(range(0, 0xC0)))) + len(ro.translate(None, bytes(range(0, 0xC0))))
+        if leak:
+            ctx.violation("bytes of a non-stderr extended data type delivered to the application",
+                          "%d bytes sent with data_type_code != 1 came out of recv/recv_stderr" % leak, desc)
+        if mode == "stderr_read":
+            ctx.count("stderr_bytes_read_back", len(rs))
+            if rs.translate(None, _TX_ONLY) != bytes(want_err):
+                ctx.violation("recv_stderr stream differs from the type-1 extended data sent",
+                              "stderr read back is not exactly the type-1 bytes, in order (%d read, %d sent)" % (
+                                  len(rs), len(want_err)), desc)
+            if ro.translate(None, _TX_ONLY) != bytes(want_out):
+                ctx.violation("recv stream differs from the data sent", "stdout read back differs", desc)
+        elif mode == "not_read":
+            ctx.count("stderr_left_unread_cases")
+            if len(vchan.in_stderr_buffer) != len(want_err):
+                ctx.violation("stderr buffer holds bytes that are not type-1 extended data",
+                              "at quiescence in_stderr_buffer holds %d bytes, %d type-1 bytes were sent and none read" % (
+                                  len(vchan.in_stderr_buffer), len(want_err)), desc)
+        else:
+            ctx.count("combined_cases")
+            low, high = cm.split_streams(ro)
+            t1 = high.translate(None, _TX_ONLY)
+            rest = bytes(vchan.in_stderr_buffer._buffer) if mode == "combine_midway" else b""
+            if low != bytes(want_out) or t1 + rest.translate(None, _TX_ONLY) != bytes(want_err):
+                ctx.violation("combined stream does not carry exactly the data and the type-1 extended data sent",
+                              "combined read-back: %d stdout (%d sent), %d stderr (%d sent)" % (
+                                  len(low), len(want_out), len(t1) + len(rest), len(want_err)), desc)
+    finally:
+        a.close()
+
+
+# ---------------------------------------------------------------------------
 # two readers on one channel under the preemption engine (vf.sched)
 def run_preempt(ctx, rng):
     """recv and recv_stderr from two application threads on one real channel, every single-preemption
@@ -497,6 +684,13 @@ def run(ctx):
     cm.install()
     rng = ctx.rng
     ctx.guard(run_preempt, ctx, rng)
+    for i in range(ctx.pick(6, 36)):
+        case = gen_exttypes(rng, i * ctx.nshards + ctx.shard)
+        before = ctx.counters.get("exttypes_cases", 0)
+        ctx.guard(run_exttypes, ctx, case, rng)
+        ctx.case(("exttypes", case["window"], case["mode"], case["sizes"], case["role"], len(case["plan"]), i),
+                 sample=dict(case, plan=case["plan"][:8]) if i == 0 else None,
+                 nontrivial=ctx.counters.get("exttypes_cases", 0) > before)
     n_pair = ctx.pick(10, 60)
     n_att = ctx.pick(8, 40)
     dl = ctx.deadline(30, 400)
@@ -523,6 +717,12 @@ def run(ctx):
     ctx.require("window_exactly_exhausted", 5)
     ctx.require("attacker_cases", 8)
     ctx.require("transfers_complete", 10)
+    ctx.require("exttypes_cases", 36)
+    ctx.require("ext_msgs_non_stderr_type_below_threshold", 200)
+    ctx.require("exttypes_discarded_bytes", 200000)
+    ctx.require("stderr_bytes_read_back", 20000)
+    ctx.require("stderr_left_unread_cases", 8)
+    ctx.require("combined_cases", 16)
     ctx.require("preempt_runs", 60)
     ctx.require("preempt_parks_reached", 30)
     ctx.require("preempt_other_reader_in_check_add_window_during_park", 10)
